@@ -207,6 +207,163 @@ theorem model_pipeline_no_flag (pb : Problem) (placer : Placer) (radius : Nat) (
   obtain ⟨n, _, hn, hd⟩ := L.forall₂_right (model_pipeline_delivers pb placer radius orc mini out dom hpl h).2.2 q hq
   exact delivered_no_flag (hd k (by rw [← hn.1, ← hn.2.1]; exact hk))
 
+/-! ## the failures of the composed pipeline -/
+
+theorem c10_sameSet_refl (a : List Nat) : Rig.C10.sameSet a a = true := by
+  simp [Rig.C10.sameSet, Rig.C10.subset, List.all_eq_true]
+
+/-- **`routing_tree_to_tables` cannot fail inside the pipeline.**  For valid routing trees rooted at working chips
+and pairwise non-intersecting key/masks (what the earlier stages deliver in the domain) the conversion raises neither
+`MultisourceRouteError` nor an assertion: two tree nodes on one chip under one key and mask are the same node. -/
+theorem tables_total_of_valid (m : Machine) (nets : List PNet)
+    (hplace : ∀ n ∈ nets, chipOk m n.src = true)
+    (htree : ∀ n ∈ nets, Rig.C03.ValidTree m n.src n.sinks n.tree)
+    (hkeys : nets.Pairwise (fun a b => Rig.C04.intersect a.key a.mask b.key b.mask = false)) :
+    ∃ T10, Rig.C10.treeTables (nets.map PNet.net10) = .ok T10 := by
+  have hhops : ∀ n' ∈ nets, ∀ e ∈ n'.tree.edges, Rig.C03.HopOk m e := by
+    intro n' hn' e he
+    obtain ⟨c, l, c'⟩ := e
+    exact (htree n' hn').hops c l c' he
+  have hpos : ∀ n' ∈ nets, ∀ x ∈ n'.tree.chips, 0 ≤ x.1 ∧ 0 ≤ x.2 := by
+    intro n' hn' x hx
+    have hok := Rig.C01.L.chips_ok n'.tree (hhops n' hn') (by rw [(htree n' hn').rooted]; exact hplace n' hn') x hx
+    have := Rig.C01.L.chipOk_bounds hok
+    exact ⟨this.1, this.2.2.1⟩
+  have hwf : ∀ x ∈ nets.map PNet.net10, x.tree.WF := by
+    intro x hx
+    obtain ⟨n', hn', rfl⟩ := List.mem_map.1 hx
+    exact Rig.C01.L.toC10_wf _ (fun e he => (hhops n' hn' e he).1)
+  cases h : Rig.C10.treeTables (nets.map PNet.net10) with
+  | ok T => exact ⟨T, rfl⟩
+  | error e =>
+    exfalso
+    obtain ⟨k, mk, c, _, a, ha, b, hb, hata, hatb, hne⟩ := Rig.C10.tables_total _ hwf e h
+    obtain ⟨n1, hn1, v1, hv1, rfl⟩ := Rig.C01.L.mem_allOccs.1 ha
+    obtain ⟨n2, hn2, v2, hv2, rfl⟩ := Rig.C01.L.mem_allOccs.1 hb
+    simp only [Rig.C10.Occ.at] at hata hatb
+    have hk : n1.key = n2.key := by
+      have := hata.2.1.trans hatb.2.1.symm
+      exact BitVec.eq_of_toNat_eq this
+    have hm : n1.mask = n2.mask := by
+      have := hata.2.2.trans hatb.2.2.symm
+      exact BitVec.eq_of_toNat_eq this
+    have hi : Rig.C04.intersect n1.key n1.mask n2.key n2.mask = true := by
+      rw [hk, hm]; simp [Rig.C04.intersect]
+    have := Rig.C01.L.net_unique hkeys hn1 hn2 hi
+    subst this
+    have := Rig.C01.L.occs_unique n1.tree none (htree n1 hn1).distinct (hpos n1 hn1) hv1 hv2 (hata.1.trans hatb.1.symm)
+    subst this
+    simp only at hne
+    rw [c10_sameSet_refl] at hne
+    cases hne
+
+/-- the failures the stages after placement can end in -/
+def DocumentedFailure (pb : Problem) : PErr → Prop
+  | .alloc _ => True                       -- the failure clause of C05 (`alloc_only_failure`)
+  | .keyError => True                      -- a net names a vertex that was not placed (outside the documented domain)
+  | .badOracle => True                     -- impossible oracle input (not a recording of a run)
+  | .route e => (e = .tape ∨ e = .badDraw ∨ e = .badOracle ∨ e = .disconnected) ∧
+      (e = .disconnected → Rig.C03.stronglyConnected (machine3 pb) = false)
+  | .minimise _ e => ∃ t best, e = .minFailed t best
+  | _ => False                             -- never: place (not a stage here), unfold, tables
+
+theorem sameSet_mem' {a b : List Chip} (h : sameSet a b = true) {x : Chip} (hx : x ∈ b) : x ∈ a := by
+  simp only [sameSet, Bool.and_eq_true, List.all_eq_true, List.contains_iff_mem] at h
+  exact h.2 x hx
+
+theorem routeOne_failure {pb : Problem} (dom : Domain pb) {p : Rig.C02.Placement}
+    {a : List (Rig.C05.Vertex × List Rig.C05.Entry)}
+    (hf : Rig.C02.Feasible (vr02 pb) (cs02 pb) pb.m2 p)
+    (ha : Rig.C05.allocate (input05 pb p) = .ok a) {radius : Nat} {n : ANet} {o : NetOracle} {e : PErr}
+    (h : routeOne pb p (Rig.C05.strip a) radius n o = .error e) : DocumentedFailure pb e := by
+  unfold routeOne at h
+  split at h
+  · rename_i src sinks hsrc hsinks
+    split at h
+    · cases h; trivial
+    · rename_i hss
+      have hss' : sameSet o.dests (sinks.map (·.chip)) = true := by
+        cases hx : sameSet o.dests (sinks.map (·.chip)) with
+        | true => rfl
+        | false => simp [hx] at hss
+      have hsrcok := L.chipOf_ok hf hsrc
+      have hsk : ∀ s ∈ sinks, chipOk (machine3 pb) s.chip = true := by
+        intro s hs
+        obtain ⟨v, _, hv⟩ := L.sinksOf_mem hsinks s hs
+        exact (L.sink_facts dom hf ha hv).1
+      have hd : ∀ d, d ∈ o.dests → chipOk (machine3 pb) d = true := by
+        intro d hd
+        obtain ⟨s, hs, rfl⟩ := List.mem_map.1 (L.sameSet_mem hss' hd)
+        exact hsk s hs
+      split at h
+      · rename_i e3 he3
+        cases h
+        exact Rig.C03.route_only_failure _ _ _ _ _ _ _ hsrcok
+          (fun d hd' => Rig.C01.L.chipOk_bounds (hd d hd'))
+          (fun s hs => ⟨Or.inr (sameSet_mem' hss' (List.mem_map_of_mem hs)), hsk s hs⟩) e3 he3
+      · rename_i r hr
+        split at h
+        · rename_i hnone
+          obtain ⟨_, tr, htr, _⟩ := Rig.C03.routeNet_valid _ _ _ _ _ _ _ _ hsrcok hd hr
+          rw [hnone] at htr; cases htr
+        · cases h
+  · cases h; trivial
+
+theorem routeAll_failure {pb : Problem} (dom : Domain pb) {p : Rig.C02.Placement}
+    {a : List (Rig.C05.Vertex × List Rig.C05.Entry)}
+    (hf : Rig.C02.Feasible (vr02 pb) (cs02 pb) pb.m2 p)
+    (ha : Rig.C05.allocate (input05 pb p) = .ok a) {radius : Nat} :
+    ∀ {nets : List ANet} {orc : List NetOracle} {e : PErr},
+      routeAll pb p (Rig.C05.strip a) radius nets orc = .error e → DocumentedFailure pb e
+  | [], _, e, h => by simp [routeAll] at h
+  | n :: ns, [], e, h => by simp only [routeAll] at h; cases h; trivial
+  | n :: ns, o :: os, e, h => by
+    simp only [routeAll] at h
+    split at h
+    · rename_i e' he'
+      cases h
+      exact routeOne_failure dom hf ha he'
+    · split at h
+      · rename_i e' he'
+        cases h
+        exact routeAll_failure dom hf ha he'
+      · cases h
+
+
+/-- **The stages after placement fail only as documented.**  In the domain and for a feasible placement, an error of
+`afterPlace` is: the allocator's error (C05: `InsufficientResourceError` in its domain), a net naming an unplaced
+vertex, an impossible oracle input, the router's `MachineHasDisconnectedSubregion` - and that only on a machine that
+is not strongly connected (C03 `route_only_failure`) -, or `MinimisationFailedError` (C04).  In particular
+`routing_tree_to_tables` never raises `MultisourceRouteError` and no routed forest fails to unfold. -/
+theorem afterPlace_only_failure (pb : Problem) (p : Rig.C02.Placement) (radius : Nat) (orc : List NetOracle)
+    (mini : Option (List Rig.C04.Method × (Chip → Option Nat))) (e : PErr)
+    (dom : Domain pb) (hf : Rig.C02.Feasible (vr02 pb) (cs02 pb) pb.m2 p)
+    (h : afterPlace pb p radius orc mini = .error e) : DocumentedFailure pb e := by
+  unfold afterPlace at h
+  split at h
+  · cases h; trivial
+  · rename_i a ha
+    split at h
+    · rename_i e' he'
+      cases h
+      exact routeAll_failure dom hf ha he'
+    · rename_i pn hpn
+      have hall := L.routeAll_spec dom hf ha hpn
+      have hkeys := L.forall₂_keys (fun n q hr => ⟨hr.1.1, hr.1.2.1⟩) hall dom.keysDisjoint
+      obtain ⟨T10, hT⟩ := tables_total_of_valid (machine3 pb) pn
+        (fun q hq => by obtain ⟨n, _, h'⟩ := L.forall₂_right hall q hq; exact h'.2.1)
+        (fun q hq => by obtain ⟨n, _, h'⟩ := L.forall₂_right hall q hq; exact h'.2.2) hkeys
+      rw [hT] at h
+      simp only at h
+      split at h
+      · cases h
+      · split at h
+        · rename_i e' he'
+          cases h
+          obtain ⟨x, _, _, _, t, best, _, hb⟩ := Rig.C04.minimiseTables_failure _ _ e'.1 e'.2 he'
+          exact ⟨t, best, hb⟩
+        · cases h
+
 /-! ## what is expected, in the vocabulary of the problem
 
 `model_pipeline_delivers` states the deliveries through `sinkCores` / `sinkExits` of the sinks the router was given
